@@ -9,6 +9,7 @@ require (
 	github.com/gotd/log v0.1.0
 	github.com/gotd/neo v0.1.5
 	github.com/gotd/td v0.0.0
+	go.uber.org/multierr v1.11.0
 )
 
 require (
@@ -28,7 +29,6 @@ require (
 	go.opentelemetry.io/otel v1.44.0 // indirect
 	go.opentelemetry.io/otel/trace v1.44.0 // indirect
 	go.uber.org/atomic v1.11.0 // indirect
-	go.uber.org/multierr v1.11.0 // indirect
 	golang.org/x/crypto v0.54.0 // indirect
 	golang.org/x/net v0.57.0 // indirect
 	golang.org/x/sync v0.22.0 // indirect
